@@ -86,6 +86,16 @@ def register(claim):
           "-I/-S/beside-the-file headers appears.",
           "Partial: truthfulness of file-source classification, visibility stamping and involves_* is tied by correspondence, not proved; .N command files are only modelled as attributes.",
           "Lean 4 proof (filter semantics over regenerated guard lists) + differential correspondence on generated layouts", "DESIGN.md §5 C04")
+    claim("C05",
+          "Lean 4 theorems over a model of get_comment_before (walk from the back, 'ends on this line or the line before', the attached-line mark): the "
+          "comment handed out for a declaration is adjacent to it (c05_comment_adjacent), and for EVERY list of comments and EVERY sequence of "
+          "declaration lines no comment is handed out for two different lines (c05_comment_once, invariant over the claim sequence). The model is tied "
+          "to the real database on generated comment-placement files. All other facts — scoped names, public bases, virtual role, one wrapper per "
+          "omitted default, ordered parameter names/types, optional/this flags, constness of this, return types, element types and accessors, "
+          "comments — are compared entity by entity with the ground truth of the generator, for default options and -promiscuous, incl. overloads on "
+          "reference constness and a published override of a merely public base virtual.",
+          "Partial: truthfulness of the record builders is an entity-by-entity comparison per run, not a theorem.",
+          "Lean 4 proof (comment attachment invariant) + differential correspondence + ground-truth comparison (exploration)", "DESIGN.md §5 C05")
     claim("C20",
           "Lean 4 theorems: guarded accessors return the neutral value off-range and the entry in range; every lookup answers from the current maps "
           "for every sequence of requests/lookups/queries (cache invariant by induction over operations) and is sound/absent/exact; the unique-name "
